@@ -105,6 +105,16 @@ func VerifDropCache() {
 	sessions.sessions = make(map[string]*Session)
 }
 
+// VerifCacheLockFree reports whether the cache mutex could be taken right now
+// (it is taken and released again if so).
+func VerifCacheLockFree() bool {
+	if sessions.TryLock() {
+		sessions.Unlock()
+		return true
+	}
+	return false
+}
+
 // VerifCacheGet, VerifCacheSet and VerifCacheDelete are the cache's own entry
 // points.
 func VerifCacheGet(id string) (*Session, error) { return sessions.Get(id) }
